@@ -42,19 +42,29 @@ Print Assumptions first_match_is_maximum.
 (* ---------------------------------------------------------------------------------------- *)
 (* 2. the choice against XSLT 1.0 section 5.5 *)
 
-(* Under the two guards left by the refutations below — (K1) a template without priority
-   attribute has alternatives of one default priority; (K2) every alternative that matches the
-   node is filed in a list the node is looked up in — findTemplate over the compiled import tree
-   returns a template iff some rule of the mode matches, and then the template of a rule that is
-   maximal in (import precedence [post-order number of its stylesheet], priority [explicit or
+(* Under the guard left by the refutation K1 below — a template without priority attribute has
+   alternatives of one default priority — and for a matcher that respects the shapes of the
+   alternatives (every alternative's target is what getTargetData reports for its shape; the
+   matcher accepts only nodes the last step can match), findTemplate over the compiled import
+   tree returns a template iff some rule of the mode matches, and then the template of a rule that
+   is maximal in (import precedence [post-order number of its stylesheet], priority [explicit or
    default of the alternative], position). *)
+Definition matcher_respects_shapes (node : Type) (key_of : node -> nkey) (pmatch : N -> node -> bool)
+           (s : sheet) (n : node) (shape_of : alt -> shape) : Prop :=
+  forall t a, In t (all_templates s) -> In a (t_alts t) ->
+    a_target a = fst (target_data (shape_of a)) /\
+    (pmatch (a_pat a) n = true -> step_may_match (sh_last (shape_of a)) (key_of n) = true).
+
 Theorem find_template_spec_partial :
-  forall (node : Type) (key_of : node -> nkey) (pmatch : N -> node -> bool) s mode n,
+  forall (node : Type) (key_of : node -> nkey) (pmatch : N -> node -> bool) s mode n shape_of,
   uniform_union_priorities s = true ->
-  filed_where_matching node key_of pmatch s n = true ->
+  matcher_respects_shapes node key_of pmatch s n shape_of ->
   spec_choice node pmatch (rules_of s) mode n
               (find_template node key_of pmatch true (compile s) mode n false).
-Proof. exact find_template_spec_lemma. Qed.
+Proof.
+  intros node key_of pmatch s mode n shape_of Hu Hm.
+  apply find_template_spec_lemma; [exact Hu|]. exact (filed_from_shapes node key_of pmatch s n shape_of Hm).
+Qed.
 Print Assumptions find_template_spec_partial.
 
 (* the same as an equation: [best_5_5] is the executable maximum of (precedence, priority,
@@ -67,15 +77,16 @@ Proof. exact best_5_5_spec. Qed.
 Print Assumptions best_5_5_is_the_specified_choice.
 
 Theorem find_template_eq_best_partial :
-  forall (node : Type) (key_of : node -> nkey) (pmatch : N -> node -> bool) s mode n,
+  forall (node : Type) (key_of : node -> nkey) (pmatch : N -> node -> bool) s mode n shape_of,
   uniform_union_priorities s = true ->
-  filed_where_matching node key_of pmatch s n = true ->
+  matcher_respects_shapes node key_of pmatch s n shape_of ->
   find_template node key_of pmatch true (compile s) mode n false =
   option_map r_tmpl (best_5_5 node pmatch (rules_of s) mode n) /\
   find_template node key_of pmatch true (compile s) mode n true =
   option_map r_tmpl (best_5_5 node pmatch (imported_rules s) mode n).
 Proof.
-  intros node key_of pmatch s mode n Hu Hf. split.
+  intros node key_of pmatch s mode n shape_of Hu Hm.
+  pose proof (filed_from_shapes node key_of pmatch s n shape_of Hm) as Hf. split.
   - apply (spec_choice_unique node pmatch (postorder s) 0%nat mode n).
     + apply find_template_spec_lemma; assumption.
     + apply best_5_5_spec.
@@ -86,11 +97,11 @@ Qed.
 Print Assumptions find_template_eq_best_partial.
 
 (* a stylesheet used by the witnesses: match="a" then match="a[b]|*"; local name a = 5 *)
-Definition alt_a : alt := {| a_pat := 0; a_target := {| tg_name := TNName 5; tg_type := TTElement |}; a_score := ScQName; a_rscore := ScQName |}.
-Definition alt_ab : alt := {| a_pat := 1; a_target := {| tg_name := TNName 5; tg_type := TTElement |}; a_score := ScOther; a_rscore := ScOther |}.
-Definition alt_star : alt := {| a_pat := 2; a_target := {| tg_name := TNAny; tg_type := TTElement |}; a_score := ScNodeTest; a_rscore := ScNodeTest |}.
-Definition k1_t1 : template := {| t_id := 1; t_mode := None; t_prio := None; t_text := 0; t_alts := [alt_a] |}.
-Definition k1_t2 : template := {| t_id := 2; t_mode := None; t_prio := None; t_text := 1; t_alts := [alt_ab; alt_star] |}.
+Definition alt_a : alt := {| a_pat := 0; a_target := {| tg_name := TNName 5; tg_type := TTElement |}; a_score := ScQName |}.
+Definition alt_ab : alt := {| a_pat := 1; a_target := {| tg_name := TNName 5; tg_type := TTElement |}; a_score := ScOther |}.
+Definition alt_star : alt := {| a_pat := 2; a_target := {| tg_name := TNAny; tg_type := TTElement |}; a_score := ScNodeTest |}.
+Definition k1_t1 : template := {| t_id := 1; t_mode := None; t_prio := None; t_alts := [alt_a] |}.
+Definition k1_t2 : template := {| t_id := 2; t_mode := None; t_prio := None; t_alts := [alt_ab; alt_star] |}.
 Definition k1_sheet : sheet := Sheet [ITmpl k1_t1; ITmpl k1_t2] [].
 (* the only node: an element a without a child b *)
 Definition k1_key (_ : N) : nkey := KElem 5.
@@ -117,30 +128,23 @@ Proof.
 Qed.
 Print Assumptions find_template_spec_refuted.
 
-(* K2: match="key(..)" (or id(..)) is filed under the element and attribute wildcards only; a
-   text node it matches gets no template *)
-Definition alt_key : alt := {| a_pat := 0; a_target := {| tg_name := TNAny; tg_type := TTAny |}; a_score := ScOther; a_rscore := ScOther |}.
-Definition k2_t : template := {| t_id := 1; t_mode := None; t_prio := None; t_text := 0; t_alts := [alt_key] |}.
+(* regression example for the repaired defect K2 (function-headed patterns were filed under the
+   element and attribute wildcards only): match="key(..)" now fires for a text node *)
+Definition alt_key : alt := {| a_pat := 0; a_target := {| tg_name := TNAny; tg_type := TTAny |}; a_score := ScOther |}.
+Definition k2_t : template := {| t_id := 1; t_mode := None; t_prio := None; t_alts := [alt_key] |}.
 Definition k2_sheet : sheet := Sheet [ITmpl k2_t] [].
 
-Theorem find_template_spec_refuted_function_pattern : exists s mode (n : N),
-  uniform_union_priorities s = true /\
-  ~ spec_choice N (fun _ _ => true) (rules_of s) mode n
-                (find_template N (fun _ => KText) (fun _ _ => true) true (compile s) mode n false).
-Proof.
-  exists k2_sheet, None, 0%N. split; [reflexivity|].
-  replace (find_template N (fun _ => KText) (fun _ _ => true) true (compile k2_sheet) None 0%N false) with (@None template) by reflexivity.
-  intro H. cbn in H.
-  specialize (H {| r_prec := 0; r_prio := 500; r_pos := 0; r_tmpl := k2_t; r_alt := alt_key |} (or_introl eq_refl)).
-  discriminate H.
-Qed.
-Print Assumptions find_template_spec_refuted_function_pattern.
+Example function_pattern_fires_for_every_node_kind :
+  forall k, In k [KText; KComment; KPI; KRoot; KElem 5; KAttr 5] ->
+  find_template N (fun _ => k) (fun _ _ => true) true (compile k2_sheet) None 0%N false = Some k2_t.
+Proof. intros k Hk. cbn in Hk. destruct Hk as [<-|[<-|[<-|[<-|[<-|[<-|[]]]]]]]; reflexivity. Qed.
+Print Assumptions function_pattern_fires_for_every_node_kind.
 
 (* the hypotheses of the partial theorem are satisfiable on a non-trivial instance: an import
    tree (main imports A then B; A imports C), an include, ties, a union with explicit priority *)
-Definition alt_b : alt := {| a_pat := 3; a_target := {| tg_name := TNName 6; tg_type := TTElement |}; a_score := ScQName; a_rscore := ScQName |}.
+Definition alt_b : alt := {| a_pat := 3; a_target := {| tg_name := TNName 6; tg_type := TTElement |}; a_score := ScQName |}.
 Definition ex_t (id : N) (p : option Z) (alts : list alt) : template :=
-  {| t_id := id; t_mode := None; t_prio := p; t_text := id; t_alts := alts |}.
+  {| t_id := id; t_mode := None; t_prio := p; t_alts := alts |}.
 Definition ex_sheet : sheet :=
   Sheet [ITmpl (ex_t 10 None [alt_star]); IIncl [ITmpl (ex_t 11 (Some 0) [alt_ab; alt_star])]]
         [Sheet [ITmpl (ex_t 20 (Some 2000) [alt_b])] [Sheet [ITmpl (ex_t 30 None [alt_a]); ITmpl (ex_t 31 None [alt_a])] []];
@@ -151,6 +155,24 @@ Definition ex_match (p n : N) : bool :=
   match p, n with
   | 0%N, 0%N => true | 2%N, _ => true | 3%N, 1%N => true | _, _ => false
   end.
+
+Definition ex_shape (a : alt) : shape :=
+  match a_pat a with
+  | 0%N => {| sh_last := LStep false (NTName 5); sh_multi := false |}      (* a *)
+  | 1%N => {| sh_last := LStep false (NTName 5); sh_multi := true |}       (* a[b] *)
+  | 2%N => {| sh_last := LStep false NTWild; sh_multi := false |}          (* * *)
+  | _ => {| sh_last := LStep false (NTName 6); sh_multi := false |}        (* b *)
+  end.
+
+Example matcher_premise_satisfiable :
+  matcher_respects_shapes N ex_key ex_match ex_sheet 0%N ex_shape /\
+  matcher_respects_shapes N ex_key ex_match ex_sheet 1%N ex_shape.
+Proof.
+  split; intros t a Ht Ha; vm_compute in Ht;
+    repeat (destruct Ht as [<-|Ht]; [cbn in Ha; repeat (destruct Ha as [<-|Ha]; [split; [reflexivity | vm_compute; auto]|]); contradiction|]);
+    contradiction.
+Qed.
+Print Assumptions matcher_premise_satisfiable.
 
 Example partial_theorem_applies :
   uniform_union_priorities ex_sheet = true /\
@@ -175,17 +197,17 @@ Print Assumptions partial_theorem_applies.
    onlyUseImports; that is the compiled sub-tree, and the choice is the section 5.5 maximum over
    the rules imported into that stylesheet (its own rules excluded), or none of them matches *)
 Theorem apply_imports_scope :
-  forall (node : Type) (key_of : node -> nkey) (pmatch : N -> node -> bool) s p sub mode n,
+  forall (node : Type) (key_of : node -> nkey) (pmatch : N -> node -> bool) s p sub mode n shape_of,
   subsheet s p = Some sub ->
   uniform_union_priorities sub = true ->
-  filed_where_matching node key_of pmatch sub n = true ->
+  matcher_respects_shapes node key_of pmatch sub n shape_of ->
   csubsheet (compile s) p = Some (compile sub) /\
   spec_choice node pmatch (imported_rules sub) mode n
               (find_template node key_of pmatch true (compile sub) mode n true).
 Proof.
-  intros node key_of pmatch s p sub mode n Hs Hu Hf. split.
+  intros node key_of pmatch s p sub mode n shape_of Hs Hu Hm. split.
   - rewrite csubsheet_compile, Hs. reflexivity.
-  - apply apply_imports_lemma; assumption.
+  - apply apply_imports_lemma; [exact Hu|]. exact (filed_from_shapes node key_of pmatch sub n shape_of Hm).
 Qed.
 Print Assumptions apply_imports_scope.
 
@@ -206,86 +228,42 @@ Theorem model_tables_are_the_generated_ones :
 Proof. split; [exact score_values_agree | exact gen_slots_agree]. Qed.
 Print Assumptions model_tables_are_the_generated_ones.
 
-(* the K2 guard holds by construction for every alternative whose last step is not a function
-   call ... *)
+(* filing is complete for every shape of alternative, function-headed ones included: a node the
+   last step can match is looked up in a list that received the entry *)
 Theorem filing_complete_by_shape : forall sh k,
-  sh_last sh <> LFunction -> step_may_match (sh_last sh) k = true ->
-  covers (fst (target_data sh)) k = true.
+  step_may_match (sh_last sh) k = true -> covers (fst (target_data sh)) k = true.
 Proof. exact filing_by_shape. Qed.
 Print Assumptions filing_complete_by_shape.
-
-(* hence guard K2 holds for every stylesheet without function-headed alternatives whose matcher
-   respects the node kinds of the last step *)
-Theorem guard_K2_from_shapes :
-  forall (node : Type) (key_of : node -> nkey) (pmatch : N -> node -> bool) s n (shape_of : alt -> shape),
-  (forall t a, In t (all_templates s) -> In a (t_alts t) ->
-     a_target a = fst (target_data (shape_of a)) /\
-     sh_last (shape_of a) <> LFunction /\
-     (pmatch (a_pat a) n = true -> step_may_match (sh_last (shape_of a)) (key_of n) = true)) ->
-  filed_where_matching node key_of pmatch s n = true.
-Proof. exact filed_from_shapes. Qed.
-Print Assumptions guard_K2_from_shapes.
-
-(* ... and fails for id()/key() on text, comment, processing-instruction and root nodes *)
-Theorem filing_complete_refuted_function_pattern : forall m k,
-  In k [KText; KComment; KPI; KRoot] ->
-  step_may_match LFunction k = true /\
-  covers (fst (target_data {| sh_last := LFunction; sh_multi := m |})) k = false.
-Proof. exact function_filing_incomplete. Qed.
-Print Assumptions filing_complete_refuted_function_pattern.
 
 (* ---------------------------------------------------------------------------------------- *)
 (* 5. "conflict warnings never change the choice" *)
 
-(* refuted on the K1 stylesheet: the non-quiet path ranks by the run-time score of the first
-   matching alternative (here '*', -0.5) and picks match="a"; the quiet path picks the union *)
-Theorem quiet_eq_nonquiet_refuted : exists s mode (n : N),
-  find_template N k1_key k1_match false (compile s) mode n false <>
-  find_template N k1_key k1_match true (compile s) mode n false.
-Proof. exists k1_sheet, None, 0%N. vm_compute. discriminate. Qed.
-Print Assumptions quiet_eq_nonquiet_refuted.
-
-(* second refutation: two templates with the same match string and priority attribute that are
-   different patterns (namespace bindings differ): the non-quiet path skips the second without
-   testing it *)
-Definition st_t1 : template := {| t_id := 1; t_mode := None; t_prio := None; t_text := 7; t_alts := [alt_a] |}.
-Definition st_t2 : template := {| t_id := 2; t_mode := None; t_prio := None; t_text := 7;
-                                  t_alts := [{| a_pat := 9; a_target := a_target alt_a; a_score := ScQName; a_rscore := ScQName |}] |}.
-Theorem quiet_eq_nonquiet_refuted_same_text : exists s mode (n : N),
-  uniform_union_priorities s = true /\
-  find_template N k1_key (fun p _ => (p =? 0)%N) false (compile s) mode n false <>
-  find_template N k1_key (fun p _ => (p =? 0)%N) true (compile s) mode n false.
-Proof. exists (Sheet [ITmpl st_t1; ITmpl st_t2] []), None, 0%N. split; [reflexivity|]. vm_compute. discriminate. Qed.
-Print Assumptions quiet_eq_nonquiet_refuted_same_text.
-
-(* third refutation: match="a[@x]" (default priority 0.5, but run-time score 0: stepPattern keeps
-   the node test's score under a non-positional predicate) against match="a" priority="0.25" *)
-Definition alt_ax : alt := {| a_pat := 1; a_target := a_target alt_a; a_score := ScOther; a_rscore := ScQName |}.
-Definition rt_t1 : template := {| t_id := 1; t_mode := None; t_prio := Some 250; t_text := 0; t_alts := [alt_a] |}.
-Definition rt_t2 : template := {| t_id := 2; t_mode := None; t_prio := None; t_text := 1; t_alts := [alt_ax] |}.
-Theorem quiet_eq_nonquiet_refuted_runtime_score : exists s mode (n : N),
-  uniform_union_priorities s = true /\ same_text_same_match N (fun _ _ => true) s n = true /\
-  find_template N k1_key (fun _ _ => true) false (compile s) mode n false <>
-  find_template N k1_key (fun _ _ => true) true (compile s) mode n false.
-Proof. exists (Sheet [ITmpl rt_t1; ITmpl rt_t2] []), None, 0%N. split; [reflexivity|]. split; [reflexivity|]. vm_compute. discriminate. Qed.
-Print Assumptions quiet_eq_nonquiet_refuted_runtime_score.
-
-(* under the K1 guard, "run-time score = default priority" and "same match string and priority
-   => same behaviour on the node" the two paths agree, for apply-templates and apply-imports alike *)
-Theorem quiet_eq_nonquiet_partial :
+(* for every import tree, mode, node, for apply-templates and apply-imports alike, the
+   conflict-reporting path of findTemplate (scan by table priority, same-template skip, conflict
+   array) returns what the quiet path returns *)
+Theorem quiet_eq_nonquiet :
   forall (node : Type) (key_of : node -> nkey) (pmatch : N -> node -> bool) s mode n only,
-  uniform_union_priorities s = true ->
-  runtime_scores_agree s = true ->
-  same_text_same_match node pmatch s n = true ->
   find_template node key_of pmatch false (compile s) mode n only =
   find_template node key_of pmatch true (compile s) mode n only.
 Proof. exact quiet_eq_nonquiet_lemma. Qed.
-Print Assumptions quiet_eq_nonquiet_partial.
+Print Assumptions quiet_eq_nonquiet.
 
-Example nonquiet_guards_satisfiable :
-  runtime_scores_agree ex_sheet = true /\
-  same_text_same_match N ex_match ex_sheet 0%N = true /\
-  same_text_same_match N ex_match ex_sheet 1%N = true /\
-  option_map t_id (find_template N ex_key ex_match false (compile ex_sheet) None 1%N false) = Some 11%N.
+(* regression examples for the repaired defects K-new-1..3 (run-time score used as priority;
+   same match string skipped): the instances on which the two paths used to differ *)
+Definition st_t1 : template := {| t_id := 1; t_mode := None; t_prio := None; t_alts := [alt_a] |}.
+Definition st_t2 : template := {| t_id := 2; t_mode := None; t_prio := None;
+                                  t_alts := [{| a_pat := 9; a_target := a_target alt_a; a_score := ScQName |}] |}.
+Definition alt_ax : alt := {| a_pat := 1; a_target := a_target alt_a; a_score := ScOther |}.
+Definition rt_t1 : template := {| t_id := 1; t_mode := None; t_prio := Some 250; t_alts := [alt_a] |}.
+Definition rt_t2 : template := {| t_id := 2; t_mode := None; t_prio := None; t_alts := [alt_ax] |}.
+
+Example conflict_reporting_regressions :
+  (* match="a" / match="a[b]|*" on <a/>: both paths take the union (K1 is still there) *)
+  option_map t_id (find_template N k1_key k1_match false (compile k1_sheet) None 0%N false) = Some 2%N /\
+  option_map t_id (find_template N k1_key k1_match true (compile k1_sheet) None 0%N false) = Some 2%N /\
+  (* two templates, the later one does not match: the earlier one is examined and chosen *)
+  option_map t_id (find_template N k1_key (fun p _ => (p =? 0)%N) false (compile (Sheet [ITmpl st_t1; ITmpl st_t2] [])) None 0%N false) = Some 1%N /\
+  (* match="a" priority="0.25" against match="a[@x]" (0.5): a[@x] *)
+  option_map t_id (find_template N k1_key (fun _ _ => true) false (compile (Sheet [ITmpl rt_t1; ITmpl rt_t2] [])) None 0%N false) = Some 2%N.
 Proof. vm_compute. repeat split. Qed.
-Print Assumptions nonquiet_guards_satisfiable.
+Print Assumptions conflict_reporting_regressions.
